@@ -12,6 +12,7 @@ from tradingenv.spaces import BoxPortfolio, DiscretePortfolio
 from tradingenv.transmitter import Transmitter
 from tradingenv.events import EventNBBO, IEvent
 from tradingenv.broker.fees import BrokerFees
+from tradingenv.broker.broker import EndOfEpisodeError
 from tradingenv.rewards import RewardPnL, RewardLogReturn, LogReturn, RewardSimpleReturn
 
 from vf import ep, gen, monitor
@@ -65,6 +66,8 @@ def build(ctx, chain=False, discrete=False):
         cash0 = 1e7
         userate = False
         hole = None
+        nrc = False
+        zero_bar = None
     else:
         pool = [ETF("A"), ETF("B"), gen.SpotMult("L10", 10.0), ES(2021, 3), ZN(2021, 3), gen.UserFuture("F1", 5, 0.3), gen.UserSpot("U3", 3.0), gen.AssetFuture("AF", 20, 0.2)]
         rng.shuffle(pool)
@@ -83,14 +86,23 @@ def build(ctx, chain=False, discrete=False):
             sp = rng.choice([0, 1e-4, 5e-3])
             evs.append(EventNBBO(t, c, px[c] * (1 - sp / 2), px[c] * (1 + sp / 2)))
 
+        # positions given in NUMBER OF CONTRACTS (not weights); only then can a bar quote a margined contract at
+        # exactly 0.0 (calendar spreads do trade at zero; a weight target cannot be sized at a zero price)
+        nrc = (not discrete) and rng.random() < 0.2
+        zero_bar = None
+        if nrc and n >= 4 and any(gen.is_margined(c) for c in cs) and rng.random() < 0.6:
+            zero_bar = (rng.randint(1, n - 2), rng.choice([c for c in cs if gen.is_margined(c)]))
         userate = rng.random() < 0.6
         # a sparse stream: one timestep has no bar of its own - all it bears is a tick stamped within the latency
         # after the previous timestep (so it lives in the latent partition only); the next one starts with a tick
         # as well (two decisions may not share a stamp, DESIGN 4.2-c)
-        hole = rng.randint(1, n - 2) if (L >= 5 and n >= 5 and rng.random() < 0.4) else None
+        hole = rng.randint(1, n - 2) if (L >= 5 and n >= 5 and rng.random() < 0.4 and zero_bar is None) else None
         for k, t in enumerate(grid):
             if k != hole:
                 for c in cs:
+                    if zero_bar == (k, c):
+                        evs.append(EventNBBO(t, c, 0.0, 0.0))
+                        continue
                     q(t, c)
                 if userate:
                     r_ = rng.choice([0, 0.01, 0.05, -0.005])
@@ -123,13 +135,18 @@ def build(ctx, chain=False, discrete=False):
         space = DiscretePortfolio(cs, allocs)
     else:
         allocs = None
-        space = BoxPortfolio(cs, -1.5, 1.5, margin=(rng.choice([0, 0.02]) if chain else 0.0))
+        if nrc:
+            space = BoxPortfolio(cs, -1e9, 1e9, as_weights=False)
+        else:
+            space = BoxPortfolio(cs, -1.5, 1.5, margin=(rng.choice([0, 0.02]) if chain else 0.0))
     sink = ep.Sink()
     env = TradingEnv(action_space=space, transmitter=tr, state=ep.Rec(sink), reward=rw, latency=L, steps_delay=d,
                      broker_fees=fees, initial_cash=cash0)
     sink.env = env
     cfg = dict(transmitter=tr, cs=cs, grid=grid, L=L, d=d, fees=fees, rate=rate, evs=evs, rw=rw, cash0=cash0, i0=i0, allocs=allocs,
-               chain=chain, userate=userate, gap=gap, discrete=discrete)
+               chain=chain, userate=userate, gap=gap, discrete=discrete, nrc=nrc, zero_bar=zero_bar,
+               px0={c: (e_.bid_price + e_.ask_price) / 2 for c in cs if not isinstance(c, FutureChain)
+                    for e_ in [next(x for x in evs if isinstance(x, EventNBBO) and x.contract == c and x.bid_price > 0)]} if nrc else None)
     return env, sink, cfg
 
 
@@ -203,7 +220,10 @@ def ledger_episode(ctx, props, chain=False, discrete=False, prebuilt=None):
                 # unique per step: the step index is encoded in the weights
                 a = np.array([rng.choice([0.0, rng.uniform(-0.4, 0.5)]) for _ in cs])
                 a = np.where(a != 0, a + 1e-6 * (k + 1), a)
-                if rng.random() < 0.12:
+                if cfg.get("nrc"):
+                    # numbers of contracts, sized like the weights above at the first quotes
+                    a = np.array([w * cash0 / (cfg["px0"][c] * c.multiplier) for w, c in zip(a, cs)])
+                if rng.random() < 0.12 and not cfg.get("nrc"):
                     # a target so small that the trade it asks for is below 1e-7 contracts (the broker's own
                     # tolerance for positions): it is still a trade - executed, charged, recorded
                     a[rng.randrange(len(cs))] = rng.choice([-1, 1]) * rng.uniform(1e-10, 1e-8)
@@ -218,7 +238,14 @@ def ledger_episode(ctx, props, chain=False, discrete=False, prebuilt=None):
                 buf[:] = a
                 acts[-1] = np.array(a, dtype=float)
                 a = buf
-            o, r, done, info = env.step(a)
+            try:
+                o, r, done, info = env.step(a)
+            except EndOfEpisodeError:
+                # known finding K1 (C09's business): the step's own market events ruined the account and the
+                # reward computation lets the error escape.  The decision was executed and recorded; the episode
+                # is over.
+                ctx.cat("episode-ended-by-K1-escape")
+                break
             outs.append((r, info, mark, len(sink.log)))
             k += 1
             if "C07" in props and rng.random() < 0.25 and len(env.broker.track_record):
@@ -399,6 +426,10 @@ def ledger_episode(ctx, props, chain=False, discrete=False, prebuilt=None):
     ctx.cat("reward:" + type(rw).__name__, "delay:{}".format(d), "latency:{}".format(L),
             "chain" if chain else "plain", "discrete" if discrete else "box", "late-fold" if cfg["i0"] else "full-fold",
             "rate-path" if cfg["userate"] else "no-rate")
+    if cfg.get("nrc"):
+        ctx.cat("positions-in-number-of-contracts")
+    if cfg.get("zero_bar"):
+        ctx.cat("bar-quotes-margined-contract-at-zero")
     if led.snaps:
         ctx.cat("epsilon-snap")
     ctx.notes["n_steps"] = len(outs)
